@@ -32,6 +32,8 @@ def C15(tier):
              cfg=dict(constants=dict(FIX, N=n_mc, NMin=0, OutOfRange=True, Emit=False), invariants=inv, properties=["Terminates"])),
         dict(module="Partition", name="MC_Partition_emit", emit=True,
              cfg=dict(constants=dict(FIX, N=n_emit, NMin=1, OutOfRange=False, Emit=True), invariants=["DoneOK", "PanicIffOutOfRange", "EmitInv"])),
+        # independent look at the pattern-completeness argument: symbolic integer contents (Apalache)
+        dict(engine="apalache", module="PartitionSym", name="AP_PartitionSym", maxn=q(tier, 6, 9), length=q(tier, 28, 40)),
     ]
     stages = [
         dict(name="replay_dev", family="sort", trace="Trace_Sort", trace_constants=FIX, profile="dev",
@@ -64,6 +66,8 @@ def C02(tier):
         dict(module="Bulk", name="MC_Bulk_emit", emit=True,
              cfg=dict(constants=dict(FIX, N=q(tier, 3, 4), NMin=1, MaxReq=q(tier, 2, 3), OutOfRange=False, DebugAssertions=True, Emit=True),
                       invariants=["DoneOK", "EmitInv"])),
+        # quickselect over the fine-grained partition with symbolic integer contents and symbolic pivots (Apalache)
+        dict(engine="apalache", module="SelectSym", name="AP_SelectSym", maxn=q(tier, 3, 4), length=q(tier, 26, 40)),
     ]
     stages = [
         dict(name="replay_dev", family="sort", trace="Trace_Sort", trace_constants=FIX, profile="dev",
